@@ -1,4 +1,5 @@
 import TantivyModel.Proofs.FaultsClean
+import TantivyModel.Proofs.FaultsFix
 /-!
 # C11 — An I/O error never corrupts the index nor is silently swallowed
 
@@ -6,7 +7,7 @@ Property theorems only (helpers: `Proofs/Faults*.lean`). The statements quantify
 script `cs : List Call` of API calls and every fault plan `F : Nat → Plan` (call index ↦ set of
 storage phases that hit a failing operation in that call) — "fails once at k" and "fails from k
 on" are two such plans — and over the channel capacity `cap` (`PIPELINE_MAX_SIZE_IN_DOCS`).
-`final sy cap F cs` is the state reached from an empty index.
+`final sy fx cap F cs` is the state reached from an empty index.
 
 What the model does *not* cover is listed in `tools/claims/C11.json`: several worker threads
 (one worker here), deletes, the exact number of storage operations per phase, and the runtime
@@ -25,27 +26,28 @@ theorem C11_mirrored_code_shape :
 
 /-- **A commit that returns `Ok` is complete.** In every faulty run, if a `commit` of a writer
 that has reported no error since it was created / rolled back returns `Ok`, then none of the
-storage phases its result depends on failed (worker flush, purge, `save_metas`, and — when the
+storage phases its result depends on failed (worker flush of the documents still in the worker's
+open segment, purge, `save_metas`, and — when the
 code has it — the directory sync after the rename), `meta.json` now denotes exactly the previous content plus every document whose `add_document` returned
 `Ok` since the last commit, and every segment it references has its files. -/
-theorem C11_commit_ok_complete (sy : Bool) (cap : Nat) (F : Nat → Plan) (cs : List Call) (f : Plan)
-    (hS : Safe sy cap F 0 init cs) :
-    let s := final sy cap F cs
-    ∀ w, s.writer = some w → w.clean = true → (call sy cap f s .commit).2 = .ok →
+theorem C11_commit_ok_complete (sy : Bool) (fx : Fixes) (cap : Nat) (F : Nat → Plan) (cs : List Call) (f : Plan)
+    (hS : Safe sy fx cap F 0 init cs) :
+    let s := final sy fx cap F cs
+    ∀ w, s.writer = some w → w.clean = true → (call sy fx cap f s .commit).2 = .ok →
       f .purge = false ∧ f .saveMeta = false ∧ (sy && f .saveSync2) = false ∧
-      (w.acked ≠ [] → f .worker = false) ∧
-      content (call sy cap f s .commit).1.metaSegs = content s.metaSegs ++ w.acked ∧
-      segsHaveFiles (call sy cap f s .commit).1.metaSegs (call sy cap f s .commit).1.files := by
+      (w.queue ≠ [] → f .worker = false) ∧
+      content (call sy fx cap f s .commit).1.metaSegs = content s.metaSegs ++ w.acked ∧
+      segsHaveFiles (call sy fx cap f s .commit).1.metaSegs (call sy fx cap f s .commit).1.files := by
   intro s w hw hc hok
-  have hK : K s := K_run sy cap F 0 init cs K_init
-  have hJ : J sy (call sy cap f s .commit).1 :=
-    J_call sy cap f s .commit (J_run sy cap F 0 init cs (J_init sy) hS) (fun _ _ _ _ h => by cases h)
+  have hK : K s := K_run sy fx cap F 0 init cs K_init
+  have hJ : J sy (call sy fx cap f s .commit).1 :=
+    J_call sy fx cap f s .commit (J_run sy fx cap F 0 init cs (J_init sy) hS) (fun _ _ _ _ h => by cases h)
   simp only [K, hw] at hK
   obtain ⟨h1, h2, h3, h4, h5⟩ := clean_commit_ok hw (hK hc) hok
   exact ⟨h1, h2, h3, h4, h5, hJ.1⟩
 
-example : (run false 4 (fun _ => noFault) 0 init [.newWriter, .add 7, .add 8, .commit]).2 = [.ok, .ok, .ok, .ok]
-    ∧ content (final false 4 (fun _ => noFault) [.newWriter, .add 7, .add 8, .commit]).metaSegs = [7, 8] := by decide
+example : (run false noFix 4 (fun _ => noFault) 0 init [.newWriter, .add 7, .add 8, .commit]).2 = [.ok, .ok, .ok, .ok]
+    ∧ content (final false noFix 4 (fun _ => noFault) [.newWriter, .add 7, .add 8, .commit]).metaSegs = [7, 8] := by decide
 
 /-
 Full statement without the hypothesis `w.clean` (false for the code as it is):
@@ -59,7 +61,7 @@ in the index -/
 theorem C11_commit_ok_complete_counterexample :
     let F : Nat → Plan := fun i p => i == 1 && p == .worker
     let cs := [Call.newWriter, .add 1, .commit, .add 2, .commit]
-    (run false 4 F 0 init cs).2 = [.ok, .ok, .err, .ok, .ok] ∧ content (final false 4 F cs).metaSegs = [] := by
+    (run false noFix 4 F 0 init cs).2 = [.ok, .ok, .err, .ok, .ok] ∧ content (final false noFix 4 F cs).metaSegs = [] := by
   decide
 
 /-- **The last commit stays intact.** In every faulty run, at every point: every segment
@@ -73,23 +75,23 @@ document, all files present) — the latter only when the code syncs the directo
 rename and precisely that barrier failed: the commit is visible, its durability unknown.
 (A merge after a `commit` whose `save_metas` failed publishes that commit's complete content:
 `end_merge` saves the in-memory committed register.) -/
-theorem C11_last_commit_intact (sy : Bool) (cap : Nat) (F : Nat → Plan) (cs : List Call) (f : Plan) (c : Call)
-    (hS : Safe sy cap F 0 init cs) :
-    let s := final sy cap F cs
+theorem C11_last_commit_intact (sy : Bool) (fx : Fixes) (cap : Nat) (F : Nat → Plan) (cs : List Call) (f : Plan) (c : Call)
+    (hS : Safe sy fx cap F 0 init cs) :
+    let s := final sy fx cap F cs
     segsHaveFiles s.metaSegs s.files ∧
-    ((call sy cap f s c).1.metaSegs ≠ s.metaSegs →
+    ((call sy fx cap f s c).1.metaSegs ≠ s.metaSegs →
         (c = .commit ∧ f .saveMeta = false ∧ f .purge = false) ∨
         (c = .merge ∧ f .endMergeSave = false ∧ f .mergeThread = false ∧ f .endMergePurge = false)) ∧
     (c = .merge → ∀ w, s.writer = some w → w.clean = true →
-        content (call sy cap f s c).1.metaSegs = content s.metaSegs) ∧
-    (c = .commit → ∀ w, s.writer = some w → w.clean = true → (call sy cap f s c).2 = .err →
-        content (call sy cap f s c).1.metaSegs = content s.metaSegs ∨
-        (content (call sy cap f s c).1.metaSegs = content s.metaSegs ++ w.acked ∧ sy = true ∧
+        content (call sy fx cap f s c).1.metaSegs = content s.metaSegs) ∧
+    (c = .commit → ∀ w, s.writer = some w → w.clean = true → (call sy fx cap f s c).2 = .err →
+        content (call sy fx cap f s c).1.metaSegs = content s.metaSegs ∨
+        (content (call sy fx cap f s c).1.metaSegs = content s.metaSegs ++ w.acked ∧ sy = true ∧
          f .saveSync2 = true ∧ f .purge = false ∧ f .saveMeta = false ∧
-         segsHaveFiles (call sy cap f s c).1.metaSegs (call sy cap f s c).1.files)) := by
+         segsHaveFiles (call sy fx cap f s c).1.metaSegs (call sy fx cap f s c).1.files)) := by
   intro s
-  have hJ : J sy s := J_run sy cap F 0 init cs (J_init sy) hS
-  have hK : K s := K_run sy cap F 0 init cs K_init
+  have hJ : J sy s := J_run sy fx cap F 0 init cs (J_init sy) hS
+  have hK : K s := K_run sy fx cap F 0 init cs K_init
   refine ⟨hJ.1, ?_, ?_, ?_⟩
   · intro hne
     cases c with
@@ -154,11 +156,13 @@ theorem C11_last_commit_intact (sy : Bool) (cap : Nat) (F : Nat → Plan) (cs : 
       split <;> try rfl
       split
       · split <;> rfl
-      · split <;> rfl
+      · split <;> try rfl
+        split <;> rfl
     | rollback =>
       exfalso; apply hne
       simp only [call]
       cases s.writer <;> simp only
+      split <;> try rfl
       split <;> try rfl
       split <;> rfl
     | dropWriter =>
@@ -204,9 +208,9 @@ theorem C11_last_commit_intact (sy : Bool) (cap : Nat) (F : Nat → Plan) (cs : 
     subst hc
     simp only [K, hs] at hK
     exact clean_commit_err hs (hK hcl) herr
-      (J_call sy cap f s .commit hJ (fun _ _ _ _ h => by cases h)).1
+      (J_call sy fx cap f s .commit hJ (fun _ _ _ _ h => by cases h)).1
 
-example : (final false 4 (fun i p => i == 3 && p == .saveMeta) [.newWriter, .add 1, .commit, .commit]).metaSegs
+example : (final false noFix 4 (fun i p => i == 3 && p == .saveMeta) [.newWriter, .add 1, .commit, .commit]).metaSegs
     = [⟨0, [1]⟩] := by decide
 
 /-- **Errors are reported, confined, or harmless.** In every faulty run, for the current writer:
@@ -219,26 +223,26 @@ code has it — makes that `commit` return `Err`;
 (iii) GC failures never change the result of `commit`, and failing deletes leave the storage and
 the managed list exactly as they were;
 (iv) a failing reload returns `Err` and leaves the current searcher (and everything else) alone. -/
-theorem C11_error_reported (sy : Bool) (cap : Nat) (F : Nat → Plan) (cs : List Call) (f : Plan) :
-    let s := final sy cap F cs
+theorem C11_error_reported (sy : Bool) (fx : Fixes) (cap : Nat) (F : Nat → Plan) (cs : List Call) (f : Plan) :
+    let s := final sy fx cap F cs
     ∀ w, s.writer = some w →
       (w.alive = true → w.workers = true → f .worker = true → ∀ d, ∃ w',
-          (call sy cap f s (.add d)).1.writer = some w' ∧ w'.workerErr = true ∧ w'.alive = false ∧
+          (call sy fx cap f s (.add d)).1.writer = some w' ∧ w'.workerErr = true ∧ w'.alive = false ∧
           w'.workers = true) ∧
       (w.workerErr = true → w.alive = false → w.workers = true →
-          (∀ d, (call sy cap f s (.add d)).2 = .err) ∧ (call sy cap f s .commit).2 = .err) ∧
+          (∀ d, (call sy fx cap f s (.add d)).2 = .err) ∧ (call sy fx cap f s .commit).2 = .err) ∧
       (w.workers = true →
           ((w.queue ≠ [] ∧ f .worker = true) ∨ f .purge = true ∨ f .saveMeta = true ∨
            (sy = true ∧ f .saveSync2 = true)) →
-          (call sy cap f s .commit).2 = .err) ∧
+          (call sy fx cap f s .commit).2 = .err) ∧
       (f .mergeThread = true ∨ f .endMergePurge = true →
-          (call sy cap f s .merge).2 = .err ∧ (call sy cap f s .merge).1.metaSegs = s.metaSegs ∧
-          ∃ w', (call sy cap f s .merge).1.writer = some w' ∧ w'.committed = w.committed ∧
+          (call sy fx cap f s .merge).2 = .err ∧ (call sy fx cap f s .merge).1.metaSegs = s.metaSegs ∧
+          ∃ w', (call sy fx cap f s .merge).1.writer = some w' ∧ w'.committed = w.committed ∧
                 w'.uncommitted = w.uncommitted) ∧
       (∀ f' : Plan, (∀ p, p ≠ .gcLock → p ≠ .gcDelete → p ≠ .gcManaged → f' p = f p) →
-          (call sy cap f' s .commit).2 = (call sy cap f s .commit).2) ∧
+          (call sy fx cap f' s .commit).2 = (call sy fx cap f s .commit).2) ∧
       (f .gcDelete = true → (gcRun f s w).1 = s) ∧
-      (f .reload = true → call sy cap f s .reload = (s, .err)) := by
+      (f .reload = true → call sy fx cap f s .reload = (s, .err)) := by
   intro s w hw
   refine ⟨?_, ?_, ?_, ?_, ?_, ?_, ?_⟩
   · intro ha hwk hf d
@@ -259,7 +263,7 @@ theorem C11_error_reported (sy : Bool) (cap : Nat) (F : Nat → Plan) (cs : List
         · exfalso; apply hcond
           cases hq' : w.queue with
           | nil => exact absurd hq' hq
-          | cons a as => simp [hfw]
+          | cons a as => simp [hfw, inFlight, hq']
         · unfold updaterCommit; split <;> simp [hp]
         · unfold updaterCommit; split <;> try rfl
           split <;> simp [hsv]
@@ -300,43 +304,44 @@ theorem C11_error_reported (sy : Bool) (cap : Nat) (F : Nat → Plan) (cs : List
   · intro hf
     simp [call, hf]
 
-example : (run false 4 (fun i p => i == 1 && p == .worker) 0 init [.newWriter, .add 1, .add 2, .commit]).2
+example : (run false noFix 4 (fun i p => i == 1 && p == .worker) 0 init [.newWriter, .add 1, .add 2, .commit]).2
     = [.ok, .ok, .err, .err] := by decide
-example : (run false 4 (fun i p => i == 1 && p == .worker) 0 init [.newWriter, .add 1, .waitMerges, .newWriter, .add 2, .waitMerges]).2
+example : (run false noFix 4 (fun i p => i == 1 && p == .worker) 0 init [.newWriter, .add 1, .waitMerges, .newWriter, .add 2, .waitMerges]).2
     = [.ok, .ok, .err, .ok, .ok, .ok] := by decide
-example : (run false 4 (fun i p => i == 3 && p == .mergeThread) 0 init [.newWriter, .add 1, .commit, .merge, .merge]).2
+example : (run false noFix 4 (fun i p => i == 3 && p == .mergeThread) 0 init [.newWriter, .add 1, .commit, .merge, .merge]).2
     = [.ok, .ok, .ok, .err, .ok] := by decide
 
 /-- **Recoverable.** From every state of every faulty run in which no lock file was orphaned —
 which is every state if flushing and deleting the lock file never fail — dropping the writer
 (whatever happened to it) and opening a new one succeeds once the faults are over, and the new
 writer adds and commits on top of exactly what `meta.json` denoted. -/
-theorem C11_recoverable (sy : Bool) (cap : Nat) (F : Nat → Plan) (cs : List Call) (d : Nat) :
-    let s := final sy cap F cs
+theorem C11_recoverable (sy : Bool) (fx : Fixes) (cap : Nat) (F : Nat → Plan) (cs : List Call) (d : Nat) :
+    let s := final sy fx cap F cs
     ((∀ i, LockSafe (F i)) → stale s = false) ∧
     (stale s = false →
-      (run sy cap (fun _ => noFault) 0 s [.dropWriter, .newWriter, .add d, .commit]).2 = [.ok, .ok, .ok, .ok] ∧
-      content (run sy cap (fun _ => noFault) 0 s [.dropWriter, .newWriter, .add d, .commit]).1.metaSegs
+      (run sy fx cap (fun _ => noFault) 0 s [.dropWriter, .newWriter, .add d, .commit]).2 = [.ok, .ok, .ok, .ok] ∧
+      content (run sy fx cap (fun _ => noFault) 0 s [.dropWriter, .newWriter, .add d, .commit]).1.metaSegs
         = content s.metaSegs ++ [d]) := by
   intro s
   constructor
   · intro hF
-    have key : ∀ (cs : List Call) (i : Nat) (s0 : St), stale s0 = false → stale (run sy cap F i s0 cs).1 = false := by
+    have key : ∀ (cs : List Call) (i : Nat) (s0 : St), stale s0 = false → stale (run sy fx cap F i s0 cs).1 = false := by
       intro cs
       induction cs with
       | nil => intro i s0 h; exact h
       | cons c cs ih =>
         intro i s0 h
         rw [run_cons]
-        exact ih (i + 1) _ (stale_call sy cap (F i) (hF i) s0 c h)
+        exact ih (i + 1) _ (stale_call sy fx cap (F i) (hF i) s0 c h)
     exact key cs 0 init (by decide)
   · intro hst
-    have hdrop := drop_noFault sy cap s hst
+    have hdrop := drop_noFault sy fx cap s hst
     simp only [run_cons, hdrop]
-    simp [run, call, noFault, freshWriter, updaterCommit, flushS, flushW, published, commitRegs,
-      gcRun_meta, content, newFiles]
+    cases hsf : segFull fx [d] <;>
+      simp [run, call, noFault, freshWriter, updaterCommit, flushS, flushW, published, commitRegs,
+        gcRun_meta, content, newFiles, hsf]
 
-example : stale (final false 4 (fun i p => i == 1 && p == .worker) [.newWriter, .add 1, .commit]) = false := by decide
+example : stale (final false noFix 4 (fun i p => i == 1 && p == .worker) [.newWriter, .add 1, .commit]) = false := by decide
 
 /-
 Full statement without the hypothesis on the lock file (false for the code as it is): the
@@ -346,9 +351,9 @@ from then on every `Index::writer` fails with `LockBusy`, also after the faults 
 -/
 theorem C11_recoverable_counterexample :
     let F : Nat → Plan := fun i p => i == 1 && p == .lockDelete
-    (run false 4 F 0 init [.newWriter, .dropWriter, .newWriter, .newWriter]).2 = [.ok, .ok, .err, .err] ∧
-    stale (final false 4 F [.newWriter, .dropWriter]) = true ∧
-    stale (final false 4 (fun i p => i == 0 && p == .lockFlush) [.newWriter]) = true := by decide
+    (run false noFix 4 F 0 init [.newWriter, .dropWriter, .newWriter, .newWriter]).2 = [.ok, .ok, .err, .err] ∧
+    stale (final false noFix 4 F [.newWriter, .dropWriter]) = true ∧
+    stale (final false noFix 4 (fun i p => i == 0 && p == .lockFlush) [.newWriter]) = true := by decide
 
 /-
 Model-level liveness. Full statement (false for the code as it is): no call blocks forever.
@@ -358,12 +363,12 @@ A writer whose `commit` failed on a worker error has no workers but a live chann
 /-- the part that holds: in every faulty run no call of a writer that has reported no error
 blocks, and the only call that can ever block is `add_document` on a writer left without workers
 whose channel is full -/
-theorem C11_no_wait_cycle_partial (sy : Bool) (cap : Nat) (F : Nat → Plan) (cs : List Call) (f : Plan) (c : Call) :
-    let s := final sy cap F cs
-    ((call sy cap f s c).2 = .hang →
+theorem C11_no_wait_cycle_partial (sy : Bool) (fx : Fixes) (cap : Nat) (F : Nat → Plan) (cs : List Call) (f : Plan) (c : Call) :
+    let s := final sy fx cap F cs
+    ((call sy fx cap f s c).2 = .hang →
         ∃ d w, c = .add d ∧ s.writer = some w ∧ w.workers = false ∧ w.clean = false ∧ cap ≤ w.queue.length) := by
   intro s hh
-  have hK : K s := K_run sy cap F 0 init cs K_init
+  have hK : K s := K_run sy fx cap F 0 init cs K_init
   cases c with
   | add d =>
     simp only [call] at hh
@@ -386,7 +391,8 @@ theorem C11_no_wait_cycle_partial (sy : Bool) (cap : Nat) (F : Nat → Plan) (cs
               have := (hK hc).2.2.1
               simp [hwk'] at this
           · cases hh
-        · split at hh <;> cases hh
+        · split at hh <;> try cases hh
+          split at hh <;> cases hh
   | newWriter =>
     simp only [call] at hh
     cases hs : s.writer <;> simp only [hs] at hh
@@ -416,6 +422,7 @@ theorem C11_no_wait_cycle_partial (sy : Bool) (cap : Nat) (F : Nat → Plan) (cs
     cases hs : s.writer <;> simp only [hs] at hh
     · cases hh
     · split at hh <;> try cases hh
+      split at hh <;> try cases hh
       split at hh <;> cases hh
   | dropWriter =>
     simp only [call] at hh
@@ -451,7 +458,7 @@ theorem C11_no_wait_cycle_partial (sy : Bool) (cap : Nat) (F : Nat → Plan) (cs
 
 /-- witness with a channel of capacity 2: after the failed commit the third add blocks -/
 theorem C11_no_wait_cycle_counterexample :
-    (run false 2 (fun i p => i == 1 && p == .worker) 0 init
+    (run false noFix 2 (fun i p => i == 1 && p == .worker) 0 init
       [.newWriter, .add 1, .commit, .add 2, .add 3, .add 4]).2 = [.ok, .ok, .err, .ok, .ok, .hang] := by
   decide
 
@@ -459,47 +466,47 @@ theorem C11_no_wait_cycle_counterexample :
 status dropped its receiver, the dead worker dropped the other one) every `add_document` returns
 `Err` — whatever the capacity and however full the channel: in particular a producer blocked on a
 full channel is woken with an error; nothing blocks. -/
-theorem C11_worker_death_disconnects (sy : Bool) (cap : Nat) (F : Nat → Plan) (cs : List Call) (f : Plan) (d : Nat) :
-    let s := final sy cap F cs
+theorem C11_worker_death_disconnects (sy : Bool) (fx : Fixes) (cap : Nat) (F : Nat → Plan) (cs : List Call) (f : Plan) (d : Nat) :
+    let s := final sy fx cap F cs
     ∀ w, s.writer = some w → w.alive = false →
-      (call sy cap f s (.add d)).2 = .err ∧ ∀ cap', (call sy cap' f s (.add d)).2 ≠ .hang := by
+      (call sy fx cap f s (.add d)).2 = .err ∧ ∀ cap', (call sy fx cap' f s (.add d)).2 ≠ .hang := by
   intro s w hw ha
   exact ⟨by simp [call, hw, ha], fun cap' => by simp [call, hw, ha]⟩
 
-example : (run false 0 (fun i p => i == 1 && p == .worker) 0 init [.newWriter, .add 1, .add 2]).2 = [.ok, .ok, .err] := by decide
+example : (run false noFix 0 (fun i p => i == 1 && p == .worker) 0 init [.newWriter, .add 1, .add 2]).2 = [.ok, .ok, .err] := by decide
 
 /-- the code as it is now: does `save_metas` sync after the rename? (0 / 1; the model handles both) -/
 theorem C11_post_rename_sync_shape : Gen.SAVE_METAS_SYNC_AFTER_WRITE = 0 ∨ Gen.SAVE_METAS_SYNC_AFTER_WRITE = 1 := by
   decide
 
 /-- without the post-rename sync the storage invariant needs no proviso at all -/
-theorem C11_last_commit_intact_without_post_rename_sync (cap : Nat) (F : Nat → Plan) (cs : List Call) :
-    segsHaveFiles (final false cap F cs).metaSegs (final false cap F cs).files :=
-  (J_run_nosync cap F 0 init cs (J_init false)).1
+theorem C11_last_commit_intact_without_post_rename_sync (fx : Fixes) (cap : Nat) (F : Nat → Plan) (cs : List Call) :
+    segsHaveFiles (final false fx cap F cs).metaSegs (final false fx cap F cs).files :=
+  (J_run_nosync fx cap F 0 init cs (J_init false)).1
 
 /-- **A commit whose durability barrier failed is visible, and recovery starts from it.** With
 the post-rename sync: if only that barrier fails in the `commit` of a clean writer, the call
 returns `Err`, `meta.json` denotes exactly the attempted commit with all its files present, and
 a following `rollback` succeeds on top of it (the examples below also run a later `commit`). -/
-theorem C11_commit_err_after_rename_visible (cap : Nat) (F : Nat → Plan) (cs : List Call) (f : Plan)
-    (hS : Safe true cap F 0 init cs)
+theorem C11_commit_err_after_rename_visible (fx : Fixes) (cap : Nat) (F : Nat → Plan) (cs : List Call) (f : Plan)
+    (hS : Safe true fx cap F 0 init cs)
     (hf : f .saveSync2 = true ∧ f .worker = false ∧ f .purge = false ∧ f .saveMeta = false) :
-    let s := final true cap F cs
+    let s := final true fx cap F cs
     ∀ w, s.writer = some w → w.clean = true → w.workerErr = false →
-      (call true cap f s .commit).2 = .err ∧
-      content (call true cap f s .commit).1.metaSegs = content s.metaSegs ++ w.acked ∧
-      segsHaveFiles (call true cap f s .commit).1.metaSegs (call true cap f s .commit).1.files ∧
-      (call true cap noFault (call true cap f s .commit).1 .rollback).2 = .ok ∧
-      (call true cap noFault (call true cap f s .commit).1 .rollback).1.metaSegs
-        = (call true cap f s .commit).1.metaSegs := by
+      (call true fx cap f s .commit).2 = .err ∧
+      content (call true fx cap f s .commit).1.metaSegs = content s.metaSegs ++ w.acked ∧
+      segsHaveFiles (call true fx cap f s .commit).1.metaSegs (call true fx cap f s .commit).1.files ∧
+      (call true fx cap noFault (call true fx cap f s .commit).1 .rollback).2 = .ok ∧
+      (call true fx cap noFault (call true fx cap f s .commit).1 .rollback).1.metaSegs
+        = (call true fx cap f s .commit).1.metaSegs := by
   intro s w hw hc hwe
-  have hK : K s := K_run true cap F 0 init cs K_init
+  have hK : K s := K_run true fx cap F 0 init cs K_init
   simp only [K, hw] at hK
   have hcw := hK hc
-  have hJ : J true (call true cap f s .commit).1 :=
-    J_call true cap f s .commit (J_run true cap F 0 init cs (J_init true) hS) (fun _ _ _ _ h => by cases h)
+  have hJ : J true (call true fx cap f s .commit).1 :=
+    J_call true fx cap f s .commit (J_run true fx cap F 0 init cs (J_init true) hS) (fun _ _ _ _ h => by cases h)
   obtain ⟨he, hm, w1, hw1, hg1⟩ := commit_sync2_clean (cap := cap) hw hcw hwe hf
-  have hrb := rollback_noFault true cap _ w1 hw1 hg1
+  have hrb := rollback_noFault true fx cap _ w1 hw1 hg1
   exact ⟨he, hm, hJ.1, by rw [hrb], by rw [hrb]⟩
 
 /-
@@ -513,12 +520,109 @@ in `end_merge`'s `save_metas` after the registers were swapped; now neither a re
 theorem C11_post_rename_sync_double_fault_counterexample :
     let F : Nat → Plan := fun i p => (i == 2 && p == .saveSync2) || (i == 3 && p == .endMergeSave)
     let cs := [Call.newWriter, .add 1, .commit, .merge, .gc]
-    (run true 4 F 0 init cs).2 = [.ok, .ok, .err, .err, .ok] ∧
-    (final true 4 F cs).metaSegs = [⟨0, [1]⟩] ∧ (final true 4 F cs).files = [1] := by decide
+    (run true noFix 4 F 0 init cs).2 = [.ok, .ok, .err, .err, .ok] ∧
+    (final true noFix 4 F cs).metaSegs = [⟨0, [1]⟩] ∧ (final true noFix 4 F cs).files = [1] := by decide
 
-example : (run true 4 (fun i p => i == 2 && p == .saveSync2) 0 init [.newWriter, .add 1, .commit, .rollback, .add 2, .commit]).2
+example : (run true noFix 4 (fun i p => i == 2 && p == .saveSync2) 0 init [.newWriter, .add 1, .commit, .rollback, .add 2, .commit]).2
       = [.ok, .ok, .err, .ok, .ok, .ok]
-    ∧ content (final true 4 (fun i p => i == 2 && p == .saveSync2) [.newWriter, .add 1, .commit, .rollback, .add 2, .commit]).metaSegs = [1, 2]
-    ∧ content (final false 4 (fun i p => i == 2 && p == .saveSync2) [.newWriter, .add 1, .commit]).metaSegs = [1] := by decide
+    ∧ content (final true noFix 4 (fun i p => i == 2 && p == .saveSync2) [.newWriter, .add 1, .commit, .rollback, .add 2, .commit]).metaSegs = [1, 2]
+    ∧ content (final false noFix 4 (fun i p => i == 2 && p == .saveSync2) [.newWriter, .add 1, .commit]).metaSegs = [1] := by decide
+
+/-- several segments per transaction (the worker closes a segment every `cutDocs` documents):
+when a later segment of the transaction fails, the earlier ones stay registered; the commit
+fails, and — without rollback — the next commit publishes that part of the failed transaction -/
+example : (run false ⟨false, false, 2⟩ 9 (fun i p => i == 3 && p == .worker) 0 init
+      [.newWriter, .add 0, .add 1, .add 2, .commit, .commit, .merge]).2 = [.ok, .ok, .ok, .ok, .err, .ok, .ok]
+    ∧ content (final false ⟨false, false, 2⟩ 9 (fun i p => i == 3 && p == .worker)
+      [.newWriter, .add 0, .add 1, .add 2, .commit, .commit, .merge]).metaSegs = [0, 1]
+    ∧ (final false ⟨false, false, 2⟩ 9 (fun _ => noFault) [.newWriter, .add 0, .add 1, .add 2, .add 3, .add 4, .commit]).metaSegs
+        = [⟨0, [0, 1]⟩, ⟨1, [2, 3]⟩, ⟨2, [4]⟩] := by decide
+
+/-! ### the full statements, for a code with the two small repairs (`Fixes`, extracted) -/
+
+/-- **No call ever blocks** — the full form of `C11_no_wait_cycle_partial`. For a code whose
+`prepare_commit` restarts a worker for every joined handle before it returns the first error
+(`Gen.PREPARE_COMMIT_RESTARTS_WORKERS = 1`): in every faulty run, whatever failed before and
+without any rollback, no API call blocks — every writer always has workers on its current
+channel (commit joins them and restarts them, a dead worker disconnects its channel, rollback
+and new writers start fresh ones), so nothing ever waits on a channel nobody reads. -/
+theorem C11_no_wait_cycle (sy : Bool) (fx : Fixes) (hfx : fx.restartWorkers = true) (cap : Nat) (F : Nat → Plan)
+    (cs : List Call) (f : Plan) (c : Call) :
+    (call sy fx cap f (final sy fx cap F cs) c).2 ≠ .hang := by
+  intro hh
+  obtain ⟨d, w, _, hw, hwk, _, _⟩ := C11_no_wait_cycle_partial sy fx cap F cs f c hh
+  have hfit : Fit fx (final sy fx cap F cs) := Fit_run sy fx cap F 0 init cs (Fit_init fx)
+  simp only [Fit, hw, wOk, hfx, hwk] at hfit
+  simp at hfit
+
+/-- for the code as it is, as soon as the extractor finds the repaired `prepare_commit` -/
+theorem C11_no_wait_cycle_of_extracted_shape (hshape : Gen.PREPARE_COMMIT_RESTARTS_WORKERS = 1) (sy : Bool)
+    (cap : Nat) (F : Nat → Plan) (cs : List Call) (f : Plan) (c : Call) :
+    (call sy codeFixes cap f (final sy codeFixes cap F cs) c).2 ≠ .hang :=
+  C11_no_wait_cycle sy codeFixes (by simp [codeFixes, hshape]) cap F cs f c
+
+example : (run false ⟨true, false, 0⟩ 2 (fun i p => i == 1 && p == .worker) 0 init
+      [.newWriter, .add 1, .commit, .add 2, .add 3, .add 4, .commit]).2 = [.ok, .ok, .err, .ok, .ok, .ok, .ok]
+    ∧ content (final false ⟨true, false, 0⟩ 2 (fun i p => i == 1 && p == .worker)
+      [.newWriter, .add 1, .commit, .add 2, .add 3, .add 4, .commit]).metaSegs = [2, 3, 4] := by decide
+
+/-- **No acknowledged document is silently dropped by a successful commit** — the full form of
+what `C11_commit_ok_complete_counterexample` refutes for the pinned code. With `restartWorkers`:
+in every faulty run, whatever failed before and without any rollback, a `commit` that returns
+`Ok` publishes both registers and every document that is queued for the workers (every document
+acknowledged since the last worker failure or commit). -/
+theorem C11_commit_ok_publishes_every_queued_document (sy : Bool) (fx : Fixes) (hfx : fx.restartWorkers = true)
+    (cap : Nat) (F : Nat → Plan) (cs : List Call) (f : Plan) :
+    let s := final sy fx cap F cs
+    ∀ w, s.writer = some w → (call sy fx cap f s .commit).2 = .ok →
+      content (call sy fx cap f s .commit).1.metaSegs = content w.committed ++ content w.uncommitted ++ w.queue := by
+  intro s w hw hok
+  have hfit : Fit fx s := Fit_run sy fx cap F 0 init cs (Fit_init fx)
+  simp only [Fit, hw, wOk, hfx] at hfit
+  have hwk : w.workers = true := by
+    have : w.workers = true ∧ (fx.rollbackKeeps = false ∨ w.guard = true) := by simpa using hfit
+    exact this.1
+  exact commit_ok_publishes hw hwk hok
+
+example : content (final false ⟨true, false, 0⟩ 4 (fun i p => i == 1 && p == .worker)
+    [.newWriter, .add 1, .commit, .add 2, .commit]).metaSegs = [2] := by decide
+
+/-
+Open (not in the Lean model): `delete_term` / `delete_query` — their content effect is judged only
+by the harness oracle; several indexing workers (the model has one worker handing over one or
+several segments per transaction).
+-/
+
+/-- **No call ever panics, and a failed rollback can be retried.** For a code whose `rollback`
+takes the lock guard out of `self` only after the replacement writer was built
+(`Gen.ROLLBACK_TAKES_GUARD_AFTER_NEW = 1`): in every faulty run every writer owns its guard, no
+API call panics, and after a `rollback` that failed, the same call succeeds once the fault is
+over. -/
+theorem C11_no_panic_rollback_retry (sy : Bool) (fx : Fixes) (hfx : fx.rollbackKeeps = true) (cap : Nat)
+    (F : Nat → Plan) (cs : List Call) (f : Plan) (c : Call) :
+    let s := final sy fx cap F cs
+    (call sy fx cap f s c).2 ≠ .panic ∧
+    (∀ w, s.writer = some w → w.guard = true ∧
+      (call sy fx cap noFault (call sy fx cap f s .rollback).1 .rollback).2 = .ok) := by
+  intro s
+  have hfit : Fit fx s := Fit_run sy fx cap F 0 init cs (Fit_init fx)
+  have hguard : ∀ w, s.writer = some w → w.guard = true := by
+    intro w hw
+    simp only [Fit, hw, wOk, hfx] at hfit
+    have : (fx.restartWorkers = false ∨ w.workers = true) ∧ w.guard = true := by simpa using hfit
+    exact this.2
+  constructor
+  · intro hp
+    have := call_panic hp
+    obtain ⟨w, _, hw, hg⟩ := this
+    rw [hguard w hw] at hg
+    cases hg
+  · intro w hw
+    refine ⟨hguard w hw, ?_⟩
+    have hg := hguard w hw
+    cases hf : f .ctorRead <;> simp [call, hw, hg, hf, hfx, noFault, markErr, freshWriter]
+
+example : (run false ⟨false, true, 0⟩ 4 (fun i p => i == 2 && p == .ctorRead) 0 init
+    [.newWriter, .add 1, .rollback, .rollback, .newWriter, .add 2, .commit]).2 = [.ok, .ok, .err, .ok, .err, .ok, .ok] := by decide
 
 end TantivyModel.C11
